@@ -7,6 +7,11 @@ from fractions import Fraction
 from .terms import App, Const, Ref, Sym, Term
 
 
+import string as _string
+
+_EXT_CONSTS = {"string.hexdigits": _string.hexdigits, "string.digits": _string.digits, "string.ascii_letters": _string.ascii_letters}
+
+
 class Unknown(Exception):
     pass
 
@@ -26,6 +31,8 @@ def teval(t: Term, env: dict):
             return env[t.name]
         raise Unknown(f"unbound {t}")
     if isinstance(t, Ref):
+        if t.kind == "ext" and t.obj in _EXT_CONSTS:
+            return _EXT_CONSTS[t.obj]
         raise Unknown(f"ref {t}")
     op, a = t.op, t.args
     ev = lambda x: teval(x, env)
@@ -97,7 +104,8 @@ def teval(t: Term, env: dict):
     if op == "meth:get":
         return ev(a[0]).get(*[ev(x) for x in a[1:]])
     if op.startswith("meth:") and op[5:] in ("startswith", "endswith", "lower", "upper", "strip", "replace", "split", "hex",
-                                               "encode", "decode", "isnumeric", "isdigit", "count", "find", "join", "zfill"):
+                                               "encode", "decode", "isnumeric", "isdigit", "isdecimal", "isalpha", "isalnum", "count", "find", "join", "zfill", "lstrip", "rstrip",
+                                               "removeprefix", "removesuffix", "title", "capitalize"):
         try:
             return getattr(ev(a[0]), op[5:])(*[ev(x) for x in a[1:]])
         except Unknown:
@@ -107,10 +115,34 @@ def teval(t: Term, env: dict):
     if op in ("str", "call:str"):
         return str(ev(a[0]))
     if op == "call:int":
-        return int(ev(a[0]))
+        pos = [x for x in a if not (isinstance(x, App) and x.op == "kw")]
+        kws = {x.args[0].v: ev(x.args[1]) for x in a if isinstance(x, App) and x.op == "kw"}
+        try:
+            return int(*[ev(x) for x in pos], **kws)
+        except Unknown:
+            raise
+        except Exception as e:
+            raise Unknown(f"int: {e}")
     if op == "call:math.ceil":
         import math
         return math.ceil(ev(a[0]))
+    if op == "slice":
+        try:
+            return ev(a[0])[ev(a[1]):ev(a[2]):ev(a[3])]
+        except Unknown:
+            raise
+        except Exception as e:
+            raise Unknown(f"slice: {e}")
+    if op in ("call:all", "call:any") and len(a) == 1 and isinstance(a[0], App) and a[0].op in ("comp:gen", "comp:list") and len(a[0].args) == 3:
+        body, it, conds = a[0].args
+        items = ev(it)
+        el = App("elem", (it,))
+        vals = []
+        for item in items:
+            env2 = {**env, el: item}
+            if all(teval(c, env2) for c in conds.args):
+                vals.append(bool(teval(body, env2)))
+        return all(vals) if op == "call:all" else any(vals)
     if op == "list":
         return [ev(x) for x in a]
     if op == "tuple":
